@@ -42,35 +42,30 @@ namespace lang
     std::string join(InputIterator begin, InputIterator end,
                      const std::string& infix = std::string(" "))
     {
-        if (begin == end)
-            return {};
+        std::string result;
 
-        std::stringstream s;
-
-        auto it = begin;
-
-        for (; it + 1 != end; ++it)
+        for (auto it = begin; it != end; ++it)
         {
-            auto pos = s.tellp();
+            std::stringstream s;
 
             s << *it;
 
-            if (s.tellp() != pos)
+            auto element = s.str();
+
+            if (element.empty())
             {
-                s << infix;
+                continue;
             }
+
+            if (!result.empty())
+            {
+                result += infix;
+            }
+
+            result += element;
         }
 
-        s << *it;
-
-        auto str = s.str();
-
-        if (!str.empty() && str.back() == ' ')
-        {
-            return str.substr(0, str.size() - 1);
-        }
-
-        return str;
+        return result;
     }
 
     inline std::string join(const std::vector<std::string>& strs,
